@@ -10,7 +10,7 @@ import (
 	"hzcheck/core"
 )
 
-func init() { register("C20", c20Ops, c20NoPanic, c20Fixpoint, c20Sorted) }
+func init() { register("C20", c20Ops, c20NoPanic, c20Fixpoint, c20Sorted, c20Pure) }
 
 const relTagexpr = "internal/tagexpr"
 
